@@ -5,7 +5,7 @@ operation on its sessions leaves every cache as it was, hence releases everythin
 -/
 set_option linter.unusedVariables false
 set_option linter.unusedSectionVars false
-namespace AsherahVerif.Env
+namespace AsherahVerif.Env.Res
 
 section
 variable (cs : List KeyCache)
@@ -402,4 +402,4 @@ theorem nocache_decrypt {w : World} (hq : QInv w) (hm : MInv w) (s : Nat) (d : D
   have hext := decryptDataRowRecord_ext (sessionCtx w s) d true { w with log := [], faults := fl }
   exact liveSecrets_eq_of_caches hq hq' hcs hext.facs hext.sessions
 
-end AsherahVerif.Env
+end AsherahVerif.Env.Res
